@@ -10,4 +10,15 @@ def new_phys(sr):
     name = ('osroot%d' % k).encode()
     o.nodes[(tuple(name),)] = osmodel.OsDir(ex)
     fs = w.F('PhysicalFS::new', [S(b'/' + name)])
+    sr.__dict__.setdefault('phys_roots', {})
+    sr._last_phys_root = tuple(name)
     return w.F('path::VfsPath::new', [fs])
+
+
+def raw_file(sr, var, name_bytes):
+    """a file created on disk behind the library's back (hostile directory content)"""
+    o = osmodel.osm(sr.ex)
+    root = sr.phys_roots[var]
+    f = osmodel.OsFile(sr.ex)
+    f.data = S(b'x')
+    o.nodes[(root, tuple(name_bytes))] = f
